@@ -173,6 +173,9 @@ class Scenario:
         self._sensor_store = {}
         self._estimate_store = {}
 
+        # Epochs (timestamp -> Julian date) of the time steps taken since the last database output
+        self._stepped_epochs: dict[str, JulianDate] = {}
+
         # Save initial states to database
         self.saveDatabaseOutput()
 
@@ -218,20 +221,20 @@ class Scenario:
 
     def saveDatabaseOutput(self) -> None:  # noqa: C901
         """Save Truth, Estimate, and Observation data to the output database."""
-        # Grab `TruthEphemeris` for targets & sensors
-        if not self.database.getData(
-            Query(Epoch).filter(
-                Epoch.timestampISO == self.clock.datetime_epoch.isoformat(timespec="microseconds"),
-            ),
-            multi=False,
-        ):
-            self.database.insertData(
-                Epoch(
-                    julian_date=self.clock.julian_date_epoch,
-                    timestampISO=self.clock.datetime_epoch.isoformat(timespec="microseconds"),
-                ),
-            )
+        # Rows collected since the last output refer to the epochs of their own time steps, which the clock only
+        # pre-inserts for the configured time span: insert the missing ones, the current epoch included.
+        self._stepped_epochs[self.clock.datetime_epoch.isoformat(timespec="microseconds")] = (
+            self.clock.julian_date_epoch
+        )
+        for timestamp, julian_date in self._stepped_epochs.items():
+            if not self.database.getData(
+                Query(Epoch).filter(Epoch.timestampISO == timestamp),
+                multi=False,
+            ):
+                self.database.insertData(Epoch(julian_date=julian_date, timestampISO=timestamp))
+        self._stepped_epochs = {}
 
+        # Grab `TruthEphemeris` for targets & sensors
         output_data = [tgt.getCurrentEphemeris() for tgt in self.target_agents.values()]
         output_data.extend(sensor.getCurrentEphemeris() for sensor in self.sensor_agents.values())
 
@@ -314,6 +317,9 @@ class Scenario:
         self.clock.ticToc()
         # Update Julian date properly
         self.current_julian_date = self.clock.julian_date_epoch
+        self._stepped_epochs[self.clock.datetime_epoch.isoformat(timespec="microseconds")] = (
+            self.current_julian_date
+        )
 
         # Propagate truth model & predict estimate forward in time.
         for target_agent in self.target_agents.values():
